@@ -1071,6 +1071,88 @@ func genSkipOverPolka(r *rand.Rand) core.Case {
 	return g.finish("skip-over-polka")
 }
 
+// the majority-claim gate for conflicting votes, with the claim arriving for a PAST round: X is
+// locked on b0 (round 0); in round 1 the faulty validator F equivocates — prevote nil to X, prevote
+// b1 to Y and Z, who therefore see the polka for b1 and lock it; everybody moves on to round 2. At
+// the synchrony point X holds F's nil prevote of round 1, so F's prevote for b1 is a CONFLICTING
+// vote: the vote set admits it only after a peer has claimed +2/3 for b1 in (round 1, prevote)
+// (VoteSetMaj23 -> Reactor.ReceiveEnvelope -> HeightVoteSet.SetPeerMaj23, for ANY round of the
+// height). Then X sees the polka of round 1, unlocks, and the height terminates.
+func genEquivClaimPastRound(r *rand.Rand) core.Case {
+	w := getWorld([]int64{1, 1, 1, 1}, nil, 0)
+	byz := 3
+	g := newGen(r, w, complement(4, []int{byz}))
+	X, Y, Z := 0, 1, 2
+	b0, b1 := w.proposers[0], w.proposers[1]
+	if g.idx(X) != b0 || g.idx(Y) != b1 {
+		return genStaleLock(r)
+	}
+	all := []int{X, Y, Z}
+	for _, i := range all {
+		g.fire(i)
+	}
+	correctOf := func(t string, rr int) func(*msg) bool {
+		return func(m *msg) bool { return m.kind == "vote" && m.t == t && m.r == rr && m.by != byz }
+	}
+	// round 0: only X sees the polka for b0 and locks it
+	g.dlMatch(Y, func(m *msg) bool { return (m.kind == "prop" && m.r == 0) || (m.kind == "block" && m.b == b0) })
+	g.fireIf(Z, cstypes.RoundStepPropose)
+	kB := g.byzVote("pv", 0, b0, byz)
+	kN := g.byzVote("pv", 0, -1, byz)
+	g.dl(X, kB)
+	g.dl(Y, kN)
+	g.dl(Z, kN)
+	for _, i := range all {
+		g.dlMatch(i, correctOf("pv", 0))
+	}
+	g.fireIf(Y, cstypes.RoundStepPrevoteWait)
+	g.fireIf(Z, cstypes.RoundStepPrevoteWait)
+	g.byzVote("pc", 0, -1, byz)
+	for _, i := range all {
+		g.dlMatch(i, isVote("pc", 0))
+	}
+	for _, i := range all {
+		g.fireIf(i, cstypes.RoundStepPrecommitWait)
+	}
+	// round 1: Y proposes b1; F tells X "nil" and Y, Z "b1"
+	for _, i := range []int{X, Z} {
+		g.dlMatch(i, func(m *msg) bool { return (m.kind == "prop" && m.r == 1) || (m.kind == "block" && m.b == b1) })
+	}
+	g.fireIf(X, cstypes.RoundStepPropose)
+	kN1 := g.byzVote("pv", 1, -1, byz)
+	kB1 := g.byzVote("pv", 1, b1, byz)
+	g.dl(X, kN1)
+	g.dl(Y, kB1)
+	g.dl(Z, kB1)
+	for _, i := range all {
+		g.dlMatch(i, correctOf("pv", 1))
+	}
+	g.fireIf(X, cstypes.RoundStepPrevoteWait)
+	g.byzVote("pc", 1, -1, byz)
+	for _, i := range all {
+		g.dlMatch(i, isVote("pc", 1))
+	}
+	for _, i := range all {
+		g.fireIf(i, cstypes.RoundStepPrecommitWait)
+	}
+	if rs := g.nt.nodes[X].node.RS(); g.nt.nodes[X].live() && rs.Round == 2 && rs.LockedRound == 0 &&
+		g.nt.nodes[Y].node.RS().LockedRound == 1 && g.nt.nodes[Z].node.RS().LockedRound == 1 {
+		stat("locked-node-holds-the-equivocators-other-vote")
+	}
+	switch r.Intn(3) {
+	case 0:
+	case 1:
+		// the claim and the conflicting vote explicitly, before the synchrony point
+		g.do(fmt.Sprintf("claim node=%d from=%d", g.idx(X), g.idx(Y)))
+		g.dl(X, kB1)
+	default:
+		// the conflicting vote first (refused), the claim later (closure)
+		g.dl(X, kB1)
+	}
+	g.syncSuffixRounds(140, false, 8)
+	return g.finish("equivocator-past-round-claim")
+}
+
 // skewed validator set (reached through validator updates): most of the power walks through the
 // rounds one by one, one node is cut off and then skips several rounds at once
 func genSkipPath(r *rand.Rand) core.Case {
